@@ -37,6 +37,8 @@ def unit_flags(unit):
         return MALLOC_FLAGS
     if unit.startswith('src/tbb/'):
         return TBB_FLAGS
+    if unit.startswith('drivers/tbb_'):
+        return TBB_FLAGS + ['-iquote', '%s/src/tbb' % REPO]
     return DRIVER_FLAGS
 
 
